@@ -41,7 +41,12 @@ GROUPS += [
       unwind=30, search=20000, timeout=2400, tier="thorough", fn=["bashF0"],
       note="the full permutation == STB 34.101.77 bash-f for all 2^1536 states (cvc5 ~5 min)"),
 ]
+BR = ["src/crypto/brng.c", "src/crypto/belt/belt_hash.c", "src/crypto/belt/belt_compr.c", "src/crypto/belt/belt_block.c", "src/crypto/belt/belt_lcl.c",
+      "src/crypto/belt/belt_hmac.c", "src/core/mem.c", "src/core/blob.c", "src/core/u32.c", "src/core/u64.c", "src/core/u16.c", "src/core/word.c"]
+GROUPS.append(G("brng_ctr.search", "harness/C03/brng.c", "h_brng_ctr", BR, level="N", backend="native", search=40000,
+                fn=["brngCTRStart", "brngCTRStepR", "brngCTRStepG", "brngCTRRand"],
+                note="native: brng-ctr against its recurrence over the library's own beltHash, IVs wrapping a word / all 256 bits; NOT proof"))
 TRUSTED = []
 ASSUMPTIONS = ["little-endian target"]
 NOT_COVERED = ["bash_f32.c and the SSE2/AVX2/AVX-512/NEON variants of bash-f", "bash hash / prg buffering and padding",
-               "brngCTRStepR / brngHMACStepR recurrences over uninterpreted hash", "OCRA suite-string parsing, TOTP wall clock"]
+               "brngHMACStepR recurrence; brngCTRStepR only natively", "OCRA suite-string parsing, TOTP wall clock"]
